@@ -30,6 +30,11 @@ type vFrame struct {
 	ExtHdrs        []byte // IPv6 extension header chain protocol numbers (0 hop-by-hop, 60 dstopts), each 8 bytes
 	PadTo          int    // total frame length to pad to (0: none); >=128 selects the direct-packet-access parser
 	Payload        []byte
+	// frame shapes (spec/FrameShape.tla)
+	Ip4OptLen int    // bytes of IPv4 options (NOPs), multiple of 4
+	Frag      string // "", "first" (offset 0, more fragments), "later" (offset > 0)
+	RawProto  uint8  // when non-zero: the IP protocol number of a non-TCP/UDP payload (L4 is ignored)
+	CutAt     int    // when non-zero: the frame is truncated to this many bytes
 }
 
 func vChecksum(b []byte) uint16 {
@@ -48,7 +53,11 @@ func vChecksum(b []byte) uint16 {
 
 func (f *vFrame) Bytes() []byte {
 	var l4 []byte
-	if f.L4 == unix.IPPROTO_TCP {
+	proto := f.L4
+	if f.RawProto != 0 {
+		proto = f.RawProto
+		l4 = []byte{128, 0, 0, 0, 0, 1, 0, 1} // (an ICMP echo header; any 8 bytes for other protocols)
+	} else if f.L4 == unix.IPPROTO_TCP {
 		l4 = make([]byte, 20)
 		binary.BigEndian.PutUint16(l4[0:], f.Src.Port())
 		binary.BigEndian.PutUint16(l4[2:], f.Dst.Port())
@@ -71,16 +80,25 @@ func (f *vFrame) Bytes() []byte {
 	hdrLen := 14
 	if is4 {
 		binary.BigEndian.PutUint16(eth[12:], 0x0800)
-		ip = make([]byte, 20)
-		ip[0] = 0x45
+		ip = make([]byte, 20+f.Ip4OptLen)
+		ip[0] = 0x40 | byte(5+f.Ip4OptLen/4)
+		for i := 20; i < len(ip); i++ {
+			ip[i] = 1 // NOP
+		}
 		ip[1] = f.Dscp << 2
+		switch f.Frag {
+		case "first":
+			binary.BigEndian.PutUint16(ip[6:], 0x2000)
+		case "later":
+			binary.BigEndian.PutUint16(ip[6:], 0x2000|185)
+		}
 		ip[8] = 64
-		ip[9] = f.L4
+		ip[9] = proto
 		s4 := f.Src.Addr().Unmap().As4()
 		d4 := f.Dst.Addr().Unmap().As4()
 		copy(ip[12:16], s4[:])
 		copy(ip[16:20], d4[:])
-		hdrLen += 20
+		hdrLen += len(ip)
 	} else {
 		binary.BigEndian.PutUint16(eth[12:], 0x86dd)
 		ip = make([]byte, 40)
@@ -92,15 +110,26 @@ func (f *vFrame) Bytes() []byte {
 		copy(ip[8:24], s16[:])
 		copy(ip[24:40], d16[:])
 		// extension header chain
-		next := f.L4
+		next := proto
 		var exts []byte
-		for i := len(f.ExtHdrs) - 1; i >= 0; i-- {
+		chain := f.ExtHdrs
+		if f.Frag != "" {
+			chain = append(append([]byte(nil), chain...), 44) // the fragment header comes last
+		}
+		for i := len(chain) - 1; i >= 0; i-- {
 			h := make([]byte, 8)
 			h[0] = next
-			h[1] = 0                          // (len+1)*8 = 8 bytes
+			h[1] = 0                                              // (len+1)*8 = 8 bytes
 			h[2], h[3], h[4], h[5], h[6], h[7] = 1, 4, 0, 0, 0, 0 // PadN
+			if chain[i] == 44 {                                   // fragment header: reserved, offset / M, identification
+				h[1], h[2], h[3] = 0, 0, 1
+				if f.Frag == "later" {
+					h[2], h[3] = 0x05, 0xc9
+				}
+				h[4], h[5], h[6], h[7] = 0, 0, 0, 7
+			}
 			exts = append(h, exts...)
-			next = f.ExtHdrs[i]
+			next = chain[i]
 		}
 		ip[6] = next
 		ip = append(ip, exts...)
@@ -112,36 +141,40 @@ func (f *vFrame) Bytes() []byte {
 		pad = f.PadTo - total
 	}
 	l4 = append(l4, make([]byte, pad)...)
-	if f.L4 == unix.IPPROTO_UDP {
+	if f.L4 == unix.IPPROTO_UDP && f.RawProto == 0 {
 		binary.BigEndian.PutUint16(l4[4:], uint16(len(l4)))
 	}
 	if is4 {
-		binary.BigEndian.PutUint16(ip[2:], uint16(20+len(l4)))
-		binary.BigEndian.PutUint16(ip[10:], vChecksum(ip[:20]))
+		binary.BigEndian.PutUint16(ip[2:], uint16(len(ip)+len(l4)))
+		binary.BigEndian.PutUint16(ip[10:], vChecksum(ip))
 	} else {
 		binary.BigEndian.PutUint16(ip[4:], uint16(len(ip)-40+len(l4)))
 	}
 	out := append(eth, ip...)
-	return append(out, l4...)
+	out = append(out, l4...)
+	if f.CutAt > 0 && f.CutAt < len(out) {
+		out = out[:f.CutAt]
+	}
+	return out
 }
 
 // skb context passed to BPF_PROG_TEST_RUN (struct __sk_buff, only the fields test-run accepts)
 type vSkbCtx struct {
 	Len, PktType, Mark, QueueMapping, Protocol, VlanPresent, VlanTci, VlanProto, Priority uint32
-	IngressIfindex, Ifindex, TcIndex                                                   uint32
-	Cb                                                                                 [5]uint32
-	Hash, TcClassid, Data, DataEnd, NapiId, Family                                     uint32
-	RemoteIp4, LocalIp4                                                                uint32
-	RemoteIp6, LocalIp6                                                                [4]uint32
-	RemotePort, LocalPort, DataMeta                                                    uint32
-	FlowKeys                                                                           uint64
-	Tstamp                                                                             uint64
-	WireLen, GsoSegs                                                                   uint32
-	Sk                                                                                 uint64
-	GsoSize                                                                            uint32
-	TstampType                                                                         uint8
-	_                                                                                  [3]byte
-	Hwtstamp                                                                           uint64
+	IngressIfindex, Ifindex, TcIndex                                                      uint32
+	Cb                                                                                    [5]uint32
+	Hash, TcClassid, Data, DataEnd, NapiId, Family                                        uint32
+	RemoteIp4, LocalIp4                                                                   uint32
+	RemoteIp6, LocalIp6                                                                   [4]uint32
+	RemotePort, LocalPort, DataMeta                                                       uint32
+	FlowKeys                                                                              uint64
+	Tstamp                                                                                uint64
+	WireLen, GsoSegs                                                                      uint32
+	Sk                                                                                    uint64
+	GsoSize                                                                               uint32
+	TstampType                                                                            uint8
+	_                                                                                     [3]byte
+	Hwtstamp                                                                              uint64
 }
 
 type vRun struct {
@@ -225,7 +258,6 @@ func (k *vKern) SetDomainBitmap(dst netip.Addr, bitmap []uint32) error {
 	copy(v.Bitmap[:], bitmap)
 	return k.objs.DomainRoutingMap.Update(&key, &v, ebpf.UpdateAny)
 }
-
 
 // ---- process identity for WAN egress ---------------------------------------------------------------------
 // In BPF_PROG_TEST_RUN every run gets a fresh dummy socket; its cookie comes from the per-CPU socket cookie
